@@ -51,7 +51,8 @@ def str_contents():
         st.text(alphabet=st.characters(blacklist_categories=("Cs",)), max_size=12),
         st.text(alphabet="ab'' \n\t%_\\\";-/*", max_size=10),
         st.sampled_from(["'", "''", "'''", "a'b", "' or 1 eq 1 or '", "\x00", "’", " ", "",
-                         "duration'P1D'", "geography'x'", "null", "true"]),
+                         "duration'P1D'", "geography'x'", "null", "true", "%41", "a%20b", "%27", "100%25", "%u0041",
+                         "\\n", "\\'", "&amp;", "+", "a+b"]),
     )
 
 
